@@ -512,9 +512,11 @@ def failcopy_variant(base, k, tag):
 
 
 # --------------------------------------------------------------------------------------------- running
-def run_harness(ctx, harness, scenarios, jobs=6):
+def run_harness(ctx, harness, scenarios, jobs=6, sanitized=True):
     """returns list of (answers:list[str], exit:list[str])"""
     env = ctx.san_env({"ASAN_OPTIONS": "detect_leaks=1:abort_on_error=0:exitcode=99:allocator_may_return_null=1"})
+    if not sanitized:
+        env["MALLOC_PERTURB_"] = "165"          # glibc: freed memory is overwritten (uninstrumented build: stale reads show)
     chunks = [scenarios[i::jobs] for i in range(jobs)]
 
     def work(ch):
@@ -757,9 +759,9 @@ def judge(ctx, s, hres, var, stats):
     return ("corr:%s" % s.kind, "%s: model and code disagree without observable misbehaviour (repaired: %s; current: %s)" % (s.kind, why_main, why_cur) + tail, False)
 
 
-def replay_dict(ctx, s, hres):
+def replay_dict(ctx, s, hres, label=""):
     tmp = str(ctx.scratch)
-    return {"scenario": s.text(), "kind": s.kind, "args": s.args, "answers": [a[:300] for a in hres[0][-12:]], "exit": hres[1],
+    return {"scenario": s.text(), "kind": s.kind, "args": s.args, "answers": [a[:300] for a in hres[0][-12:]], "exit": hres[1], "config": "pool" if label else "malloc",
             "entry": {"kind": s.kind, "args": s.args.replace(tmp, "$TMP"), "model_kind": s.model_kind, "lines": s.lines, "mlines": s.mlines,
                       "pairs": [list(p) for p in s.pairs], "copy_at": s.copy_at, "failcopy": s.failcopy,
                       "shape": getattr(s, "fixed_shape", None), "base_probe": getattr(s, "base_probe", None)},
@@ -802,6 +804,231 @@ def evaluate_models(ctx, scs, res):
                         var[n][i] = a[k]
                         break
     return res, [{n: var[n][i] for n, _ in VARIANTS} for i in range(len(scs))]
+
+
+MMAP_LEAK = "failcopy-mmap:leak"
+
+
+def mmap_leak_only(s, hr):
+    """pool configuration: the injected failure hit the mmap inside mem_pool_allocate, sqfs_copy returned NULL, every answer
+    is fine and the only complaint is LeakSanitizer's at exit: rbtree_copy's failure branch forgets the pool it created"""
+    hans, hexit = hr
+    return bool(s.failcopy) and hexit[0] == "leak" and s.copy_at < len(hans) and hans[s.copy_at].startswith("copy NULL") and "failed=mmap" in hans[s.copy_at]
+
+
+def run_histories(ctx, harness, scs, label):
+    """scenarios through the real objects of one build of the harness and through the models: successful copies, then
+    every k-th acquisition inside sqfs_copy failing, classification.  `label` prefixes the keys ("" = the plain-malloc
+    configuration, "pool:" = /repo's default configuration)."""
+    hres = run_harness(ctx, harness, scs)
+    # allocation-failure variants: every k up to the number of acquisitions (memory, descriptor, codec state, pool block) the
+    # successful copy made — all of them (quick tier too: which failure path leaks must not depend on the seed); for copies
+    # with very many allocations (xattr writer with many strings) the first six, the last two and two in between
+    fscs = []
+    for s, (hans, hexit) in zip(scs, hres):
+        cl = hans[s.copy_at] if s.copy_at is not None and s.copy_at < len(hans) else ""
+        m = re.search(r"allocs=(\d+)", cl)
+        if not m or not cl.startswith("copy ok"):
+            continue
+        n = int(m.group(1))
+        ks = list(range(1, n + 1))
+        if len(ks) > 10:
+            ks = ks[:6] + sorted(ctx.rng.sample(ks[6:-2], 2)) + ks[-2:]
+        for k in ks:
+            f = failcopy_variant(s, k, "%sf%d" % (s.tag, k))
+            f.base_probe = parse_probe(cl)
+            fscs.append(f)
+    if not fscs:
+        raise vlib.CheckFailure("%sno allocation-failure variant could be derived (no successful copy?)" % label)
+    fres = run_harness(ctx, harness, fscs)
+    ctx.log("%s%d scenarios, %d allocation-failure variants run" % (label, len(scs), len(fscs)))
+    # every injected failure made the k-th acquisition inside sqfs_copy fail (the wrapper counted k calls or more in the
+    # successful run): a hook that still hands out an object ignored the failure
+    ignored = {}
+    for f, hr in zip(fscs, fres):
+        hans = hr[0]
+        if f.copy_at < len(hans) and hans[f.copy_at].startswith("copy ok"):
+            ignored[f.kind] = ignored.get(f.kind, 0) + 1
+            if ignored[f.kind] <= 2:
+                ctx.violation("%s%s:failcopy:ignored-failure" % (label, f.kind), "%s: acquisition %d inside sqfs_copy failed (allocation / dup / codec state / pool block) and the hook "
+                              "still returned an object: `%s` [scenario %s]" % (f.kind, f.failcopy, hans[f.copy_at][:200], f.tag), replay_dict(ctx, f, hr, label), found_input=True)
+    allsc = scs + fscs
+    allres = hres + fres
+    # the models (hooks repaired / partly repaired / current) on the same scripts.  Allocation-failure variants: the k-th
+    # real allocation corresponds to *some* failing step of the hook's model (one model step may stand for several real
+    # allocations), so the model is run for every failing step and the real outcome must be explained by one of them
+    _, allvar = evaluate_models(ctx, allsc, allres)
+    stats = {"outcomes": {}, "kinds": {}, "findings": {}}
+    pair_checks = 0
+    view_checks = 0
+    for idx, (s, hr) in enumerate(zip(allsc, allres)):
+        stats["kinds"][s.kind] = stats["kinds"].get(s.kind, 0) + 1
+        pair_checks += sum(1 for i, j in s.pairs if i < len(hr[0]) and j < len(hr[0]))
+        view_checks += len(view_relations(s, hr[0]))
+        if label and mmap_leak_only(s, hr) and not divergences(s, hr):
+            v = ("%s:%s" % (s.kind, MMAP_LEAK), "%s, default configuration (pool allocator): the mmap of a pool block fails inside sqfs_copy (acquisition %d); the hook returns NULL "
+                 "but the pool that rbtree_copy had just created is never destroyed (rbtree.c: failure branch of rbtree_copy clears `out` without mem_pool_destroy): leak [scenario %s]" % (
+                     s.kind, s.failcopy, s.tag), True)
+            stats["outcomes"]["leak"] = stats["outcomes"].get("leak", 0) + 1
+        else:
+            v = judge(ctx, s, hr, allvar[idx], stats)
+        if v:
+            key, what, found = v
+            key = label + key
+            stats["findings"][key] = stats["findings"].get(key, 0) + 1
+            fk = key + ("+" if found else "-")
+            stats.setdefault("reported", {})[fk] = stats.setdefault("reported", {}).get(fk, 0) + 1
+            if stats["reported"][fk] <= 2:
+                ctx.violation(key, what, replay_dict(ctx, s, hr, label), found_input=found)
+    return {"hres": hres, "fscs": fscs, "fres": fres, "allsc": allsc, "allres": allres, "stats": stats, "pair_checks": pair_checks, "view_checks": view_checks}
+
+
+
+# --------------------------------------------------------------------------------------------- /repo's default configuration (pool allocator)
+def gen_pool_units(ctx, us):
+    """the rbt units of the main run (same histories: copy, lookups, independent inserts, release of one, use of the other) and
+    failures of the two acquisitions rbtree_copy makes in this configuration: 1 = calloc of the mem_pool_t, 2 = mmap of the
+    pool's first block"""
+    r, q = ctx.rng, ctx.quick()
+    pus = [u for u in us if u.kind == "rbt" and not any(l.startswith("failcopy") for l in u.lines)]
+    for i in range(12 if q else 120):
+        ks, vs = [(4, 8), (40, 4), (r.randint(1, 17), r.randint(0, 24))][i % 3]
+        u = gen_rbt_unit(r, "rpf%d" % i, ks, vs, 5 if q else 8, fail=True)
+        u.lines = [("failcopy %d" % (1 + (i // 3) % 2)) if l.startswith("failcopy") else l for l in u.lines]
+        pus.append(u)
+    return pus
+
+
+def gen_big_units(ctx):
+    """trees of several thousand nodes (several blocks of a pool): copy, node-for-node comparison, every key looked up in
+    copy and original, release of one, every key looked up in the other.  Not predicted by the model (exercised only)."""
+    r, out = ctx.rng, []
+    for i, (ks, vs, n) in enumerate([(4, 8, 5000), (40, 4, 2500)] + ([] if ctx.quick() else [(r.randint(4, 17), r.randint(1, 24), 6000)])):
+        u = Unit("big%d" % i, "rbt", "rbt %d %d" % (ks, vs))
+        seed = r.randint(0, 1 << 30)
+        u.n, u.ks = n, ks
+        first = r.choice("oc")
+        rest = "c" if first == "o" else "o"
+        for l in ("o bulk %d %d" % (n, seed), "copy", "c cmpcopy", "c verify %d %d" % (n, seed), "o verify %d %d" % (n, seed), "drop " + first,
+                  "%s verify %d %d" % (rest, n, seed), "drop " + rest):
+            u.add(l)
+        out.append(u)
+    return out
+
+
+def check_big_units(ctx, us, hres, pool, label):
+    if len(us) != len(hres):
+        raise vlib.CheckFailure("big units: %d scenarios, %d results" % (len(us), len(hres)))
+    n_ok = 0
+    for u, (hans, hexit) in zip(us, hres):
+        pad = (u.ks + 7) // 8 * 8
+        exp = ["bulk 0 %d" % u.n, "copy 0 kp=%d alias=0%s" % (pad, " pool=own nodes=in" if pool else ""),
+               "cmpcopy same=1 n=%d%s" % (u.n, " nodes=in blocks=many" if pool else ""), "verify %d" % u.n, "verify %d" % u.n, "drop", "verify %d" % u.n, "drop", "fds-at-end +0"]
+        if hans != exp or hexit[0] != "ok":
+            i = next((j for j, (a, b) in enumerate(zip(hans, exp)) if a != b), min(len(hans), len(exp)))
+            ctx.violation(label + "unit:rbt-big", "rbtree_copy of a tree of %d nodes (%s)%s: line %d `%s` answers `%s`, expected `%s`; exit %s" % (
+                u.n, u.args, ", default configuration (pool allocator)" if pool else "", i, u.lines[i] if i < len(u.lines) else "end", hans[i][:200] if i < len(hans) else "<nothing>",
+                exp[i] if i < len(exp) else "<nothing>", " ".join(hexit)[:200]),
+                {"scenario": u.text(), "answers": hans[:12], "exit": hexit, "config": "pool" if pool else "malloc"}, found_input=True)
+        else:
+            n_ok += 1
+    return n_ok
+
+
+def norm_cross(l):
+    """an answer line reduced to what the sanitized and the uninstrumented build of the same configuration must both print"""
+    w = l.split()
+    if w and w[0] == "copy" and len(w) > 1 and w[1] == "ok":
+        p = parse_probe(l)
+        return "copy ok " + " ".join("%s=%s" % (k, p.get(k, "")) for k in ("rc", "destroy", "copy", "samehooks", "refs", "self")) + " " + " ".join(x for x in w if x.startswith(("pool=", "nodes=")))
+    if w and w[0] in ("copy", "rcs"):
+        return norm_ctl(l)
+    if w and w[0] == "views":
+        return "views"
+    return l
+
+
+def run_pool(ctx, hp, scs, us):
+    """The directory-reader and xattr-writer histories (the two kinds that own an rbtree) and the rbtree units again, against
+    /repo's DEFAULT configuration: under ASan/LSan with the pool allocator, and uninstrumented with the use-after-release
+    canary.  Returns (coverage dict, floor problems, the large-tree units)."""
+    pscs = [s for s in scs if s.kind in ("dir", "xwr")]
+    H = run_histories(ctx, hp["asan"], pscs, "pool:")
+    phres = H["hres"]
+    st = {"scenarios": len(H["allsc"]), "alloc_failure_variants": len(H["fscs"]), "copies_with_pool_facts": 0, "dir_copies_with_cached_inodes": 0, "xwr_copies_with_blocks": 0,
+          "failed_by_mmap": {"dir": 0, "xwr": 0}, "real_outcomes": H["stats"]["outcomes"], "classified": H["stats"]["findings"]}
+    reported = 0
+    for s, (hans, _) in zip(pscs, phres):
+        cl = hans[s.copy_at] if s.copy_at is not None and s.copy_at < len(hans) else ""
+        if not cl.startswith("copy ok"):
+            continue
+        owns_tree = s.kind == "xwr" or (int(s.args.split()[-1]) & 1) == 1
+        if owns_tree != (" pool=" in cl):
+            raise vlib.CheckFailure("pool build: scenario %s (%s): pool facts %s on the copy line `%s`" % (s.tag, s.args, "missing" if owns_tree else "unexpected", cl[:200]))
+        if not owns_tree:
+            continue
+        st["copies_with_pool_facts"] += 1
+        bufs = parse_probe(cl).get("bufs", "").split(",")
+        nonempty = bufs[0 if s.kind == "dir" else 3] != "null"
+        st["dir_copies_with_cached_inodes" if s.kind == "dir" else "xwr_copies_with_blocks"] += nonempty
+        if not cl.endswith(" pool=own nodes=in"):
+            reported += 1
+            if reported <= 2:
+                ctx.violation("pool:%s:ownership" % s.kind, "%s, default configuration: the tree of a fresh copy does not live in a pool of the copy's own (`%s`): it dies with the original [scenario %s]" % (
+                    s.kind, cl[cl.index(" pool="):], s.tag), replay_dict(ctx, s, (hans, ["-"]), "pool:"), found_input=True)
+    for f, (hans, _) in zip(H["fscs"], H["fres"]):
+        if f.copy_at < len(hans) and "failed=mmap" in hans[f.copy_at]:
+            st["failed_by_mmap"][f.kind] += 1
+    cbad, cst = check_copystate(ctx, pscs, phres, floors=False)
+    for s, field, inv, differs in cbad[:3]:
+        ctx.violation("pool:copystate:%s" % s.kind, "%s, default configuration: the state of the real copy is not what rbCopy yields on the real original's state (first difference: %s)" % (s.kind, field),
+                      replay_dict(ctx, s, phres[pscs.index(s)], "pool:"), found_input=differs)
+    st["copystate"] = cst
+    # the same histories, uninstrumented: nothing between the code and munmap; answers as in the sanitized pool build
+    plres = run_harness(ctx, hp["plain"], pscs, sanitized=False)
+    ndiff = 0
+    for s, (ha, ea), (hb, eb) in zip(pscs, phres, plres):
+        why = None
+        if eb[0] != "ok":
+            why = "exit %s" % " ".join(eb)[:200]
+        elif divergences(s, (hb, eb)):
+            why = "answers differ from the identically driven twin: %s" % (divergences(s, (hb, eb))[0],)
+        elif ea[0] == "ok" and [norm_cross(x) for x in ha] != [norm_cross(x) for x in hb]:
+            i = next((j for j, (x, y) in enumerate(zip(ha, hb)) if norm_cross(x) != norm_cross(y)), min(len(ha), len(hb)))
+            why = "line %d `%s`: sanitized build `%s`, uninstrumented build `%s`" % (i, s.lines[i] if i < len(s.lines) else "end", ha[i][:160] if i < len(ha) else "-", hb[i][:160] if i < len(hb) else "-")
+        if why:
+            ndiff += 1
+            if ndiff <= 2:
+                ctx.violation("pool-plain:%s" % s.kind, "%s, default configuration, uninstrumented build with use-after-release canary: %s [scenario %s]" % (s.kind, why, s.tag),
+                              replay_dict(ctx, s, (hb, eb), "pool-plain:"), found_input=True)
+    st["uninstrumented_scenarios"] = len(pscs)
+    # units
+    pus = gen_pool_units(ctx, us)
+    for name, h, san in (("asan", hp["asan"], True), ("plain", hp["plain"], False)):
+        ures = run_harness(ctx, h, pus, sanitized=san)
+        ubad, ustat = check_units(ctx, pus, ures, mode="unit-pool", pool=True)
+        for u, hans, hexit, i, what, found in ubad[:3]:
+            ctx.violation("pool:unit:rbt", "rbtree_copy (%s), default configuration (pool allocator), %s build: %s [scenario %s]" % (u.args, "sanitized" if san else "uninstrumented", what, u.tag),
+                          {"scenario": u.text(), "answers": [a[:300] for a in hans[max(0, i - 3):i + 3]], "exit": hexit, "config": "pool",
+                           "entry": {"unit": True, "pool": True, "kind": u.kind, "args": u.args, "lines": u.lines, "same": [list(p) for p in u.same]}}, found_input=found)
+        for u, hans, hexit in ustat.pop("mmap_leaks")[:1]:
+            ctx.violation("pool:rbt:" + MMAP_LEAK, "rbtree_copy (%s), default configuration: the mmap of the pool's first block fails: SQFS_ERROR_ALLOC is returned and `out` cleared, but the pool "
+                          "created a few lines earlier is never destroyed (LeakSanitizer: %s) [scenario %s]" % (u.args, " ".join(hexit[2:])[:120], u.tag),
+                          {"scenario": u.text(), "answers": hans[-6:], "exit": hexit, "config": "pool",
+                           "entry": {"unit": True, "pool": True, "kind": u.kind, "args": u.args, "lines": u.lines, "same": [list(p) for p in u.same]}}, found_input=True)
+        st["units_" + name] = ustat
+    big = gen_big_units(ctx)
+    st["big_trees_ok"] = {name: check_big_units(ctx, big, run_harness(ctx, h, big, sanitized=san), True, "pool:") for name, h, san in (("asan", hp["asan"], True), ("plain", hp["plain"], False))}
+    floors = []
+    if not (st["dir_copies_with_cached_inodes"] and st["xwr_copies_with_blocks"]):
+        floors.append("pool build: no copy of a directory reader with cached inodes / of an xattr writer with recorded blocks: %s" % st)
+    if not (st["failed_by_mmap"]["dir"] and st["failed_by_mmap"]["xwr"]):
+        floors.append("pool build: no sqfs_copy failed by a failing mmap of a pool block: %s" % st["failed_by_mmap"])
+    for name in ("asan", "plain"):
+        u = st["units_" + name]
+        if not (u["copies_pool_own_nodes_in"] and u["failed_mmap"] and u["failed_copies"] and u["spec_pairs"] and u["rbt_layouts"] >= 17 * 25):
+            floors.append("pool build (%s): unit scenarios evaluated too little: %s" % (name, u))
+    return st, floors, big
 
 
 # --------------------------------------------------------------------------------------------- table machines
@@ -910,7 +1137,7 @@ def check_descriptions(ctx, scs, hres):
     return problems, facts
 
 
-def check_copystate(ctx, scs, hres):
+def check_copystate(ctx, scs, hres, floors=True):
     """drCopy / mrCopy of the model applied to the state dumped from the real original must be the state dumped from the
     real copy; the cache invariant (specification) must hold of every real original"""
     pairs = []
@@ -954,6 +1181,9 @@ def check_copystate(ctx, scs, hres):
         if m != c + " inv=1":
             field = next((a.split("=")[0] for a, b in zip(m.split(), (c + " inv=1").split()) if a != b), "?")
             bad.append((s, field, "inv=0" if m.endswith("inv=0") else "", (o.replace("dump o ", "dump c ", 1) != c)))
+    if not floors:
+        st["floor_problems"] = []
+        return bad, st
     floors = []
     if st["data"] and not (st["data_block_cached"] and st["frag_block_cached"] and st["short_block_cached"]):
         floors.append("copystate: no copied data reader had a cached data block, a cached fragment block and a short block: %s" % st)
@@ -1127,14 +1357,18 @@ def gen_units(ctx):
     return us
 
 
-def check_units(ctx, us, hres):
+def check_units(ctx, us, hres, mode="unit", pool=False):
     """every answer of a unit scenario against `sqfsmodel c19 unit`; the specification (copy answers / dumps like the
     original right after the copy) evaluated on the real answers first"""
-    out = ctx.driver(["c19", "unit"], "".join(u.text() for u in us))
+    if len(us) != len(hres):
+        raise vlib.CheckFailure("units: %d scenarios, %d results" % (len(us), len(hres)))
+    out = ctx.driver(["c19", mode], "".join(u.text() for u in us))     # `unit-pool`: /repo's default configuration
     if len(out) != sum(len(u.lines) + 2 for u in us):
         raise vlib.CheckFailure("unit model answered %d lines, expected %d" % (len(out), sum(len(u.lines) + 2 for u in us)))
     norm = lambda l: re.sub(r" count=\d+", "", l)        # an array's capacity is not part of what it answers
-    bad, k, stats = [], 0, {"answers": 0, "copies": 0, "failed_copies": 0, "spec_pairs": 0, "rbt_layouts": set(), "rbt_padded_value_tail_nonzero": 0}
+    bad, k, stats = [], 0, {"answers": 0, "copies": 0, "failed_copies": 0, "spec_pairs": 0, "rbt_layouts": set(), "rbt_padded_value_tail_nonzero": 0,
+                            "failed_mmap": 0, "copies_pool_own_nodes_in": 0}
+    leaks = []
     for u, (hans, hexit) in zip(us, hres):
         m = out[k + 1:k + 1 + len(u.lines)]
         k += len(u.lines) + 2
@@ -1146,12 +1380,16 @@ def check_units(ctx, us, hres):
                 stats["spec_pairs"] += 1
                 if norm(hans[i]) != norm(hans[j]) and found is None:
                     found = (i, "right after the copy `%s` -> `%s` but `%s` -> `%s` (copy and original must answer alike)" % (u.lines[i], hans[i][:300], u.lines[j], hans[j][:300]), True)
-        if hexit[0] != "ok" or len(hans) != len(u.lines) + 1 or hans[-1] != "fds-at-end +0":
+        # pool configuration: the mmap inside mem_pool_allocate failed, every answer is fine, LeakSanitizer complains at exit
+        mmleak = pool and hexit[0] == "leak" and len(hans) == len(u.lines) + 1 and hans[-1] == "fds-at-end +0" and any("failed=mmap" in a for a in hans)
+        if (hexit[0] != "ok" and not mmleak) or len(hans) != len(u.lines) + 1 or hans[-1] != "fds-at-end +0":
             found = found or (len(hans), "exit %s after %d of %d lines" % (" ".join(hexit)[:300], len(hans), len(u.lines) + 1), True)
         for i, l in enumerate(u.lines):
             if i >= len(hans):
                 break
             stats["answers"] += 1
+            stats["failed_mmap"] += "failed=mmap" in hans[i]
+            stats["copies_pool_own_nodes_in"] += hans[i].startswith("copy 0") and hans[i].endswith(" pool=own nodes=in")
             if l.startswith(("copy", "failcopy")):
                 stats["copies" if hans[i].startswith("copy 0") else "failed_copies"] += 1
                 if u.kind == "rbt" and hans[i].startswith("copy 0"):
@@ -1162,7 +1400,10 @@ def check_units(ctx, us, hres):
                 found = (i, "`%s` answers `%s`, the model says `%s`" % (l, hans[i][:300], m[i][:300]), False)
         if found:
             bad.append((u, hans, hexit) + found)
+        elif mmleak:
+            leaks.append((u, hans, hexit))
     stats["rbt_layouts"] = len(stats["rbt_layouts"])
+    stats["mmap_leaks"] = leaks
     return bad, stats
 
 
@@ -1184,6 +1425,7 @@ def run(ctx):
         if not lc_ok:
             ctx.violation("proof:C19:leanchecker", "leanchecker rejects the compiled proofs of Sqfs.Props.C19: " + lc_out[-600:], {"leanchecker": lc_out}, found_input=False)
     harness, gen = build(ctx)
+    hp = build_pool(ctx)
     specs = image_specs(ctx)
     imgs, files = make_images(ctx, gen, specs)
     ikeys = [c if b == 8192 else "%s@%d" % (c, b) for c, b in specs]
@@ -1222,60 +1464,9 @@ def run(ctx):
     for j, c in enumerate(corpus):
         scs.insert(j, scenario_from_entry(ctx, "c%d" % j, c, imgs))
     ctx.log("%d scenarios (%d corpus), harness built; running" % (len(scs), len(corpus)))
-    hres = run_harness(ctx, harness, scs)
-    # allocation-failure variants: every k up to the number of acquisitions (memory, descriptor, codec state) the
-    # successful copy made — all of them (quick tier too: which failure path leaks must not depend on the seed); for copies
-    # with very many allocations (xattr writer with many strings) the first six, the last two and two in between
-    fscs = []
-    for s, (hans, hexit) in zip(scs, hres):
-        cl = hans[s.copy_at] if s.copy_at is not None and s.copy_at < len(hans) else ""
-        m = re.search(r"allocs=(\d+)", cl)
-        if not m or not cl.startswith("copy ok"):
-            continue
-        n = int(m.group(1))
-        ks = list(range(1, n + 1))
-        if len(ks) > 10:
-            ks = ks[:6] + sorted(ctx.rng.sample(ks[6:-2], 2)) + ks[-2:]
-        for k in ks:
-            f = failcopy_variant(s, k, "%sf%d" % (s.tag, k))
-            f.base_probe = parse_probe(cl)
-            fscs.append(f)
-    if not fscs:
-        raise vlib.CheckFailure("no allocation-failure variant could be derived (no successful copy?)")
-    fres = run_harness(ctx, harness, fscs)
-    ctx.log("%d allocation-failure variants run" % len(fscs))
-    # every injected failure made the k-th acquisition inside sqfs_copy fail (the wrapper counted k calls or more in the
-    # successful run): a hook that still hands out an object ignored the failure
-    ignored = {}
-    for f, hr in zip(fscs, fres):
-        hans = hr[0]
-        if f.copy_at < len(hans) and hans[f.copy_at].startswith("copy ok"):
-            ignored[f.kind] = ignored.get(f.kind, 0) + 1
-            if ignored[f.kind] <= 2:
-                ctx.violation("%s:failcopy:ignored-failure" % f.kind, "%s: acquisition %d inside sqfs_copy failed (allocation / dup / codec state) and the hook "
-                              "still returned an object: `%s` [scenario %s]" % (f.kind, f.failcopy, hans[f.copy_at][:200], f.tag), replay_dict(ctx, f, hr), found_input=True)
-    allsc = scs + fscs
-    allres = hres + fres
-    # the models (hooks repaired / partly repaired / current) on the same scripts.  Allocation-failure variants: the k-th
-    # real allocation corresponds to *some* failing step of the hook's model (one model step may stand for several real
-    # allocations), so the model is run for every failing step and the real outcome must be explained by one of them
-    _, allvar = evaluate_models(ctx, allsc, allres)
-    stats = {"outcomes": {}, "kinds": {}, "findings": {}}
-    pair_checks = 0
-    view_checks = 0
+    H = run_histories(ctx, harness, scs, "")
+    hres, fscs, allsc, allres, stats, pair_checks, view_checks = H["hres"], H["fscs"], H["allsc"], H["allres"], H["stats"], H["pair_checks"], H["view_checks"]
     fresh_checks = sum(1 for s, hr in zip(scs, hres) for i, l in enumerate(s.lines) if l.startswith("f ") and i < len(hr[0]) and not hr[0][i].startswith(("no-object", "fresh-failed")))
-    for idx, (s, hr) in enumerate(zip(allsc, allres)):
-        stats["kinds"][s.kind] = stats["kinds"].get(s.kind, 0) + 1
-        pair_checks += sum(1 for i, j in s.pairs if i < len(hr[0]) and j < len(hr[0]))
-        view_checks += len(view_relations(s, hr[0]))
-        v = judge(ctx, s, hr, allvar[idx], stats)
-        if v:
-            key, what, found = v
-            stats["findings"][key] = stats["findings"].get(key, 0) + 1
-            fk = key + ("+" if found else "-")
-            stats.setdefault("reported", {})[fk] = stats.setdefault("reported", {}).get(fk, 0) + 1
-            if stats["reported"][fk] <= 2:
-                ctx.violation(key, what, replay_dict(ctx, s, hr), found_input=found)
     # operations must have *succeeded* on copies, or equal answers say nothing: per kind, at least one successful answer of
     # the copy after the copy was made
     okpat = {"comp": r"blk [1-9]", "idtable": r"(add|get) 0 ", "fragtable": r"(append|lookup|set) 0", "file": r"read 0 ", "meta": r"read 0 ",
@@ -1322,9 +1513,17 @@ def run(ctx):
         ctx.violation("unit:%s" % u.kind, "%s (%s): %s [scenario %s]" % ({"rbt": "rbtree_copy", "arr": "array_init_copy", "strt": "str_table_copy"}[u.kind], u.args, what, u.tag),
                       {"scenario": u.text(), "answers": [a[:300] for a in hans[max(0, i - 3):i + 3]], "exit": hexit,
                        "entry": {"unit": True, "kind": u.kind, "args": u.args, "lines": u.lines, "same": [list(p) for p in u.same]}}, found_input=found)
+    ustat.pop("mmap_leaks")
     for name in ("answers", "copies", "failed_copies", "spec_pairs", "rbt_padded_value_tail_nonzero"):
         if ustat[name] <= 0:
             floor_problems.append("the unit scenarios evaluated no %s" % name)
+    # /repo's default configuration (pool allocator): directory readers, xattr writers and the rbtree units again
+    pool_cov, pool_floors, big = run_pool(ctx, hp, scs, us)
+    floor_problems += pool_floors
+    pool_cov["big_trees_ok"]["malloc"] = check_big_units(ctx, big, run_harness(ctx, harness, big), False, "")
+    for k, v in pool_cov["big_trees_ok"].items():
+        if v <= 0:
+            floor_problems.append("no large tree was copied and verified in the %s build" % k)
     if ustat["rbt_layouts"] < 17 * 25:
         floor_problems.append("rbtree_copy succeeded for %d of the %d key size x value size layouts" % (ustat["rbt_layouts"], 17 * 25))
     # tables: exact answers
@@ -1346,7 +1545,7 @@ def run(ctx):
         raise vlib.CheckFailure("; ".join(floor_problems)[:1500])
     ctx.cov.update({
         "evaluations": sum(len(s.lines) for s in allsc) + sum(len(s.lines) for s in tscs) + sum(len(u.lines) for u in us),
-        "unit_scenarios": len(us), "units": ustat, "directory_copies_asked_for_high_references": hi,
+        "unit_scenarios": len(us), "units": ustat, "default_configuration_pool_allocator": pool_cov, "directory_copies_asked_for_high_references": hi,
         "distinct_nontrivial": nontrivial,
         "rule": "seeded scenarios per kind (5 compressors x {compress with random level/window/flags, uncompress}, id/fragment table, read-only file, "
                 "file opened for writing (copy refused), xattr writer, meta/dir/data/xattr reader over images made by the working tree's gensquashfs: %s, "
@@ -1385,13 +1584,19 @@ def replay(ctx, path):
         return 1
     ctx.lean_build(["sqfsmodel"])
     harness, gen = build(ctx)
+    pool = rp.get("config") == "pool" or bool(rp["entry"].get("pool"))
+    if pool:
+        harness = build_pool(ctx)["asan"]       # /repo's default configuration (pool allocator)
     if rp["entry"].get("unit"):
         e = rp["entry"]
         u = Unit("replay", e["kind"], e["args"])
         u.lines, u.same = e["lines"], [tuple(p) for p in e["same"]]
         ures = run_harness(ctx, harness, [u])
         print(u.text()); print("\n".join(ures[0][0])); print("exit", " ".join(ures[0][1]))
-        ubad, _ = check_units(ctx, [u], ures)
+        ubad, ust = check_units(ctx, [u], ures, mode="unit-pool" if pool else "unit", pool=pool)
+        if ust["mmap_leaks"]:
+            print("replay: reproduces -> key=pool:rbt:%s: the pool created by rbtree_copy is leaked when the mmap of its first block fails" % MMAP_LEAK)
+            return 1
         if not ubad:
             print("replay: every answer is what the model predicts (no violation)")
             return 0
@@ -1404,6 +1609,9 @@ def replay(ctx, path):
     print(s.text())
     print("\n".join(res[0][0]))
     print("exit", " ".join(res[0][1]))
+    if pool and mmap_leak_only(s, res[0]):
+        print("replay: reproduces -> key=pool:%s:%s: the pool created by rbtree_copy is leaked when the mmap of its first block fails" % (s.kind, MMAP_LEAK))
+        return 1
     v = judge(ctx, s, res[0], var[0], {"outcomes": {}})
     if v is None:
         print("replay: the scenario now behaves as the model of the repaired hooks predicts (no violation)")
